@@ -29,6 +29,7 @@ import (
 	logging "github.com/ipfs/go-log/v2"
 	"github.com/ipni/go-libipni/announce"
 	"github.com/ipni/go-libipni/dagsync"
+	"github.com/libp2p/go-libp2p/core/peer"
 
 	"verif/harness/subdrv"
 	"verif/harness/vlib"
@@ -478,6 +479,86 @@ func runDistHeld(sc Scn) (res Res) {
 	return
 }
 
+// runCleaner: the idle-handler cleaner is made slow (many handlers, so that its sweep under
+// handlersMutex takes milliseconds); Close is called while a sweep is in progress (detected
+// by RemoveHandler having to wait for the mutex) and the goroutines are dumped at once.
+func runCleaner(sc Scn) (res Res) {
+	// the sweep is hit by timing: up to three subscribers
+	for i := 0; i < 3; i++ {
+		res = runCleanerOnce(sc)
+		if len(res.Failures) > 0 {
+			return
+		}
+	}
+	return
+}
+
+func runCleanerOnce(sc Scn) (res Res) {
+	res.Sc = sc
+	t0 := time.Now()
+	p := subdrv.NewPub(0, sc.Seed)
+	defer p.Close()
+	p.Extend(2)
+	ttl := 700 * time.Millisecond
+	w := subdrv.NewWorld([]*subdrv.Pub{p}, dagsync.IdleHandlerTTL(ttl))
+	created := time.Now()
+	closed := false
+	defer func() {
+		if !closed {
+			subdrv.Call(watchdog, func() { w.Sub.Close() })
+		}
+	}()
+	n := 0
+	for time.Since(created) < ttl-150*time.Millisecond {
+		for k := 0; k < 2000; k++ {
+			_ = w.Sub.SyncOneEntry(context.Background(), peer.AddrInfo{ID: peer.ID(fmt.Sprintf("fake-handler-%08d", n))}, p.Chain[0])
+			n++
+		}
+	}
+	// wait for a sweep: a RemoveHandler call stays blocked on handlersMutex while the cleaner holds it
+	var inflight atomic.Int64 // start time (ns) of the probe call in progress, 0 if none
+	stop := make(chan struct{})
+	go func() {
+		for {
+			select {
+			case <-stop:
+				return
+			default:
+			}
+			inflight.Store(time.Now().UnixNano())
+			w.Sub.RemoveHandler("no-such-handler")
+			inflight.Store(0)
+		}
+	}()
+	deadline := created.Add(ttl + 400*time.Millisecond)
+	hit := false
+	for time.Now().Before(deadline) {
+		if st := inflight.Load(); st != 0 && time.Now().UnixNano()-st > int64(400*time.Microsecond) && time.Since(created) > ttl-20*time.Millisecond {
+			hit = true
+			break
+		}
+	}
+	defer close(stop)
+	res.Reached = hit
+	var dump []string
+	ok, _ := subdrv.Call(watchdog, func() {
+		_ = w.Sub.Close()
+		dump = subdrv.LibGoroutines()
+	})
+	closed = true
+	if !ok {
+		res.fail("close:blocked", "Close did not return")
+		return
+	}
+	for _, g := range dump {
+		if strings.Contains(g, "idleHandlerCleaner") {
+			res.fail("goroutine-at-return:idleHandlerCleaner", fmt.Sprintf("the idle-handler cleaner goroutine was still running when Close returned (%d handlers, sweep in progress: %v)", n, hit))
+		}
+	}
+	res.DurMs = float64(time.Since(t0).Microseconds()) / 1000
+	return
+}
+
 // runAfterClose: nothing but Close, then the entry points.
 func runAfterClose(sc Scn) (res Res) {
 	res.Sc = sc
@@ -687,6 +768,8 @@ func run(sc Scn) Res {
 		return runDistHeld(sc)
 	case "after-close":
 		return runAfterClose(sc)
+	case "cleaner":
+		return runCleaner(sc)
 	case "mix":
 		return runMix(sc)
 	case "seq":
@@ -715,6 +798,7 @@ func genAll(c *vlib.Ctx) (targeted []Scn, bulk []Scn) {
 	targeted = append(targeted, Scn{Kind: "after-close", Seed: c.Seed, Closers: 1})
 	targeted = append(targeted, Scn{Kind: "dist-held", Seed: c.Seed})
 	targeted = append(targeted, Scn{Kind: "after-close", Seed: c.Seed + 1, Closers: 4})
+	targeted = append(targeted, Scn{Kind: "cleaner", Seed: c.Seed})
 	// Close injected at every yield point
 	for _, k := range []int{1, 2, 4} {
 		for _, pt := range explicitPoints {
